@@ -2,7 +2,7 @@
    range.  Only the property theorems, each closed by [exact]; proofs live in
    Midi/MidiProofs.v, the model in Midi/MidiModel.v, the Spec in Midi/MidiSpec.v. *)
 From Coq Require Import List ZArith QArith.
-From RtoscV Require Import Midi.MidiModel Midi.MidiSpec Midi.MidiProofs Midi.MidiFloat Midi.MidiProto Midi.MidiNrt Midi.MidiSilent.
+From RtoscV Require Import Midi.MidiModel Midi.MidiSpec Midi.MidiProofs Midi.MidiFloat Midi.MidiProto Midi.MidiNrt Midi.MidiSilent Midi.MidiInv Midi.MidiRefine.
 Import ListNotations.
 Local Open Scope Z_scope.
 
@@ -88,29 +88,54 @@ Theorem C20_unassigned_silent : forall r id v r' m used,
   rt_handleCC r id v = Some (r', m, used) -> m = None.
 Proof. exact unassigned_silent. Qed.
 
-(* assigned to the oldest queued address, other bindings unaffected.
-   _partial: proved for the first controller of an address (no inv_map entry
-   yet); for a second controller of an address that already has one (fine
-   after coarse, relearn of one kind) the slot comes from inv_map and the
-   statement needs the consistency of inv_map with the callback vector, which
-   is not proved here (the correspondence run and the Spec oracle cover it).
-   Full statement: the same without the hypothesis inv_find a (inv_map n) = None. *)
-Theorem C20_learn_oldest_partial : forall ports n id a c q p,
-  learnQ n = (a, c) :: q -> nthZ ports a = Some p ->
-  inv_find a (inv_map n) = None ->
-  ~ In id (mids (omap (nstorage n))) ->
-  exists s' loc,
-    nrt_useFreeID ports n id =
-      Some ({| nstorage := Some s';
-               inv_map := inv_set a (if c then (loc, id, -1, {| bmin := pmin p; bmax := pmax p |})
-                                     else (loc, -1, id, {| bmin := pmin p; bmax := pmax p |}))
-                            (inv_set a (loc, -1, -1, {| bmin := pmin p; bmax := pmax p |}) (inv_map n));
-               learnQ := q |}, [RBind s']) /\
+(* The invariant of the whole system (MidiInv): G = the handshake invariant of
+   C20_quiescent_learn_partial; J = inv_map, mapping, callback and value
+   vectors of the non-realtime side are consistent (NI: every inv_map entry's
+   slot holds the callback of its address's port and its coarse/fine
+   controllers are exactly the mapping entries pointing to that slot; queued
+   (address, kind)s are unassigned), every snapshot in flight and the one the
+   realtime side holds is well formed (SW: indices in range, one slot per
+   address, one controller per slot and kind, values below 2^14), the pending
+   ring is in bounds.  Inv init, and every event of a quiescent history
+   executes without out-of-range access / null dereference (step <> None)
+   and re-establishes Inv. *)
+Theorem C20_inv_init : forall U ports, Inv U ports world0 0 [].
+Proof. exact Inv_init. Qed.
+
+Theorem C20_inv_step : forall U ports w pend tg e,
+  (length U <= 32)%nat -> Inv U ports w pend tg -> ev_ok U e -> evok ports e ->
+  exists w' o, step ports w e = Some (w', o) /\
+    forall p' tg', qstep pend tg e o = Some (p', tg') -> Inv U ports w' p' tg'.
+Proof. exact Inv_step. Qed.
+
+(* lifted over histories: every quiescent history (<= 32 controllers, 7-bit
+   values, mapped addresses in the port table) runs to its end - no crash -
+   and ends in a consistent state *)
+Theorem C20_quiescent_crash_free_partial : forall ports evs tr fin U,
+  (length U <= 32)%nat -> incl (ccids evs) U -> Forall (evok ports) evs ->
+  run ports world0 evs = (tr, fin) -> quiescent evs tr = true ->
+  length tr = length evs /\ exists w, fin = Some w /\ J ports w.
+Proof. exact quiescent_crash_free. Qed.
+
+(* assigned to the oldest queued address, other bindings unaffected - first or
+   second controller of the address alike: in a consistent state useFreeID(id)
+   with a fresh id sends a well-formed snapshot in which id has exactly the
+   entry (id, queued kind, loc), slot loc holds the callback of the queued
+   address's port, the controller of the address's other kind (if any) has
+   its entry at the same slot loc (so C20_compose_14bit composes both into one
+   14-bit value for that address), and the assignment function akind changes
+   at (address, kind) only. *)
+Theorem C20_learn_oldest : forall ports n id a c q, NI ports n -> learnQ n = (a, c) :: q ->
+  0 <= id -> ~ In id (mids (omap (nstorage n))) ->
+  exists n' s' p loc,
+    nrt_useFreeID ports n id = Some (n', [RBind s']) /\ NI ports n' /\ nstorage n' = Some s' /\
+    learnQ n' = q /\ SW ports s' /\ nthZ ports a = Some p /\
     find_map id (mapping s') = Some (id, c, loc) /\
     nthZ (callbacks s') loc = Some (mk_cb p a) /\
-    (forall id', id' <> id -> find_map id' (mapping s') = find_map id' (omap (nstorage n))) /\
-    (forall s i y, nstorage n = Some s -> nthZ (callbacks s) i = Some y -> nthZ (callbacks s') i = Some y).
-Proof. exact learn_new_address. Qed.
+    (akind n a (negb c) <> -1 ->
+       find_map (akind n a (negb c)) (mapping s') = Some (akind n a (negb c), negb c, loc)) /\
+    (forall a2 c2, akind n' a2 c2 = if (a2 =? a) && Bool.eqb c2 c then id else akind n a2 c2).
+Proof. exact learn_shares_slot. Qed.
 
 (* unmapping an address stops its controller from driving it, the others keep
    their entries *)
@@ -142,3 +167,21 @@ Theorem C20_unassigned_silent_history_partial : forall ports evs tr fin U,
   run ports world0 evs = (tr, fin) -> quiescent evs tr = true ->
   silent_run ports world0 [] evs.
 Proof. exact quiescent_silent. Qed.
+
+(* Refinement against the abstract specification MidiSpec.astep (a finite map
+   controller -> (address, coarse|fine), a FIFO of addresses waiting to learn,
+   the realtime side's delayed copy, 7-bit values; no slots, index vectors,
+   inv_map or ring): on every quiescent history the model emits, event by
+   event, exactly the records the specification emits - same queue traffic,
+   same assignments (oldest queued address), a parameter message exactly when
+   the specification's table has the controller and to exactly that address;
+   none for unassigned controllers; unMap/clear/relearn change only what the
+   table says.  _partial: quiescent, <= 32 controllers, and `erase` drops the
+   value a message carries (that the value is the 14-bit composition pushed
+   through the port's callback is C20_compose_14bit + C20_bijection_*; its
+   preservation across cloneValues is not part of this theorem). *)
+Theorem C20_refines_spec_partial : forall ports evs tr fin U,
+  (length U <= 32)%nat -> incl (ccids evs) U -> Forall (evok ports) evs ->
+  run ports world0 evs = (tr, fin) -> quiescent evs tr = true ->
+  map (map erase) tr = map (map erase) (arun ports astate0 evs).
+Proof. exact refine_quiescent. Qed.
